@@ -18,6 +18,7 @@ CONSTANTS MaxReq,      \* requests (client and peer) per behaviour
 MCContent == [d \in Digests |-> IF d = "k1" THEN <<"k1.0", "k1.1">> ELSE IF d = "k2" THEN <<"k2.0">> ELSE <<>>]
 MCOrder   == <<"k1", "k2", "k3">>
 MCRing    == [d \in Digests |-> IF "n3" \in Nodes THEN <<"n1", "n2", "n3">> ELSE <<"n1", "n2">>]   \* every node owns every blob
+RConfigs  == {<<"ok", "ok">>, <<"fail", "ok">>, <<"retry", "ok">>, <<"net", "retry">>, <<"retry", "fail">>}   \* remote cluster dispositions
 MCRingAlt == <<"n2">>                                    \* the ring after a membership change: n1 lost its blobs
 
 VARIABLES ncl,         \* client requests issued so far
@@ -135,7 +136,7 @@ Steps == \/ HHealth \/ HReadiness \/ HLocations \/ HStat \/ HDownload \/ HPrefet
 
 EDown == ~HasDone /\ UNCHANGED ncl /\ nenv < MaxEnv /\ nenv' = nenv + 1 /\ "down" \in EnvActs /\ \E n \in Nodes : SetUp(n, ~env.up[n])
 EBackendDown == ~HasDone /\ UNCHANGED ncl /\ nenv < MaxEnv /\ nenv' = nenv + 1 /\ "bdown" \in EnvActs /\ SetBDown(~env.bdown)
-ERemoteDown == ~HasDone /\ UNCHANGED ncl /\ nenv < MaxEnv /\ nenv' = nenv + 1 /\ "rdown" \in EnvActs /\ SetRDown(~env.rdown)
+ERemoteDown == ~HasDone /\ UNCHANGED ncl /\ nenv < MaxEnv /\ nenv' = nenv + 1 /\ "rdown" \in EnvActs /\ \E s \in RConfigs : s # env.rhosts /\ SetRHosts(s)
 EWbFail == ~HasDone /\ UNCHANGED ncl /\ nenv < MaxEnv /\ nenv' = nenv + 1 /\ "wbfail" \in EnvActs /\ \E n \in Nodes : SetWbFail(IF n \in env.wbfail THEN env.wbfail \ {n} ELSE env.wbfail \cup {n})
 EBackendPut == ~HasDone /\ UNCHANGED ncl /\ nenv < MaxEnv /\ nenv' = nenv + 1 /\ "backend" \in EnvActs /\ \E d \in Digests : d \notin env.backend /\ SetBackend(env.backend \cup {d})
 ERing == ~HasDone /\ UNCHANGED ncl /\ nenv < MaxEnv /\ nenv' = nenv + 1 /\ "ring" \in EnvActs /\ \E d \in Digests : env.ring[d] # MCRingAlt /\ SetRing(d, MCRingAlt)
